@@ -346,12 +346,6 @@ Record Inv (bins : list (list Z)) (aid : Z) (am : appmap) (m0 m : machine) (unl 
   inv_wf : machine_wf m;
   inv_static : same_static m0 m }.
 
-(* an attempt is addressed to exactly the named cores that do not hold their binary at that moment *)
-Definition att_ok (bins : list (list Z)) (aid : Z) (am : appmap) (um : appmap * machine) : Prop :=
-  incl (named (fst um)) (named am)
-  /\ forall b c, In (b, c) (named am) ->
-       (In (b, c) (named (fst um)) <-> ~ holds bins (snd um) aid STATE_WAIT b c).
-
 Lemma named_unique : forall (l : list (Z * core)) b b' c,
   NoDup (map snd l) -> In (b, c) l -> In (b', c) l -> b = b'.
 Proof.
